@@ -42,9 +42,6 @@ structure WellTyped (P : Program) : Prop where
 
 /-! ## relations carried through the induction -/
 
-def toInst (st : StructTable) (F : Nat) (ρ : Store) (n : SNode) : Inst :=
-  ⟨⟨n.path, []⟩, runtimeArgs st F ρ [] n, false, false⟩
-
 /-- den's argument record against the resolved inputs of a node -/
 def ArgsRel (st : StructTable) (F : Nat) (ρ : Store) (pins : List Param) (args : J) (cins : RBMap) : Prop :=
   ∃ g : Param → RExp,
